@@ -17,9 +17,12 @@ Inductive case :=
 | CFctrl (b : N) (o : fctrl) (o_re : outcome N)
 | CDlSettings (b : N) (o_optneg : bool) (o_rx2 o_rx1 : N) (o_re : outcome N)
 (* FHDR.MarshalBinary of a header value (its unexported FOptsLen may be stale) *)
-| CFhdrEnc (h : fhdr) (o : outcome (list N)).
+| CFhdrEnc (h : fhdr) (o : outcome (list N))
+(* CFList.UnmarshalBinary of 16 arbitrary octets, then MarshalBinary of what was decoded *)
+| CCFListDec (bs : list N) (o : outcome cflist) (o_re : outcome (list N)).
 
 Definition oeqb := outcome_eqb bytes_eqb.
+Definition cfeqb := outcome_eqb cflist_eqb.
 Definition peqb := outcome_eqb macpl_eqb.
 
 Definition check (c : case) : N :=
@@ -59,6 +62,18 @@ Definition check (c : case) : N :=
                        then oeqb o (Ok (spec_fhdr h opts)) else true
           | _ => true
           end)
+  | CCFListDec bs o o_re =>
+    code (cfeqb (cflist_unmarshal bs) o &&
+          match o with Ok l => oeqb (cflist_marshal l) o_re | _ => true end)
+         (if Nat.eqb (length bs) 16 && (nth 15 bs 0 =? 1)
+          then (* channel-masks: octets 12..14 are RFU: ignored by the decoder, sent as zero by the encoder *)
+               let z := firstn 12 bs ++ [0; 0; 0; 1] in
+               cfeqb o (cflist_unmarshal z) && oeqb o_re (Ok z) &&
+               match o with Ok l => option_eqb bytes_eqb (spec_cflist l) (Some z) | _ => false end
+          else if Nat.eqb (length bs) 16 && (nth 15 bs 0 =? 0)
+          then (* channels: every octet is a field, the value is the octets *)
+               oeqb o_re (Ok bs) && match o with Ok l => option_eqb bytes_eqb (spec_cflist l) (Some bs) | _ => false end
+          else true)
   | CDlSettings b o rx2 rx1 re =>
     code (let '(o', a, c) := dec_dlsettings b in Bool.eqb o o' && (a =? rx2) && (c =? rx1) && outcome_eqb N.eqb (enc_dlsettings o rx2 rx1) re)
          (let l := unpack L_DLSettings b in
